@@ -34,6 +34,9 @@ func init() {
 }
 
 func runC05(w *World, r *Report) {
+	hrParsedURLAfterInit(w, r, "R5")
+	hrEdgeEqualNilGuards(w, r, "R5")
+	hrListAssertionsGuarded(w, r, "R5")
 	hrAPIStreamAccessors(w, r, "R5")
 	hrEmptyDocument(w, r, "R2")
 	hrParentWalk(w, r, "R4")
